@@ -177,3 +177,19 @@ theorem MainPred.deliverAll (hP : MainPred P) : ∀ (bs : List Block) (s : State
     exact ih _ (hP.processBlock s b h)
 
 end C25
+
+namespace C25
+
+/-- the margin never changes. -/
+theorem margin_mainPred (m : Nat) : MainPred (fun s => s.margin = m) where
+  frame := by intro s s' h e; rw [e.2.2.2.2.2.2.2]; exact h
+  conn := by
+    intro s b s' h hc
+    obtain ⟨_, _, sq, _, _, _, hsq, _, rfl⟩ := connectBlock_ok hc
+    rw [← h]; exact (saveSeq_frame hsq).2.1
+  disc := by
+    intro s b s' h hc
+    obtain ⟨_, _, sq, _, _, hsq, rfl⟩ := disconnectBlock_ok hc
+    rw [← h]; exact (saveSeq_frame hsq).2.1
+
+end C25
